@@ -110,12 +110,17 @@ def evaluate__parenthesized_expression(self: XPathToken, context: ta.ContextType
 
             if any(x.symbol == '?' and not x for x in tokens):
                 func.check_arguments_number(len(tokens))
-                if func.label == 'partial function':
+                if func.label in ('partial function', 'inline partial function'):
                     # the arguments go to the placeholders that are left, in their order
                     args = iter(tokens)
                     tokens = [next(args) if tk.symbol == '?' and not tk else tk for tk in func]
                 func = copy(func)
                 func._items = list(tokens)  # not the list shared with the copied item
+                if func.label == 'partial function':
+                    # the evaluation methods saved on the instance are bound to the copied item
+                    for name in ('evaluate', 'select', '_partial_evaluate', '_partial_select'):
+                        func.__dict__.pop(name, None)
+                    func.label = 'function'
                 func.to_partial_function()
                 return func
 
